@@ -1,6 +1,7 @@
 mod c01;
 mod c08;
 mod c05;
+mod c06;
 mod c10;
 mod c11;
 mod c12;
@@ -8,6 +9,7 @@ mod c15;
 mod dump;
 mod progen;
 mod godump;
+mod goparse;
 mod c17;
 mod c19;
 mod goscope;
@@ -29,6 +31,7 @@ fn main() {
         "c01" => c01::main(&args),
         "c05" => c05::main(&args),
         "c08" => c08::main(&args),
+        "c06" => c06::main(&args),
         "c10" => c10::main(&args),
         "c12" => c12::main(&args),
         "c15" => c15::main(&args),
